@@ -434,9 +434,12 @@ func (e *Enc) callByContract(fr *Frame, fn *ssa.Function, c *Contract, args []Va
 	}
 	post := e.paramScope(fn, args, st.clone(), &oldSt, &errs, reach)
 	bindResults(post, fn, res, rt)
-	for _, en := range c.Ensures {
+	for _, en := range append(append([]*Clause{}, c.Ensures...), c.Defines...) {
 		if len(en.Tags) > 0 && !e.wantsTags(en.Tags) {
 			continue // property-specific postcondition not needed by the function under proof
+		}
+		if en.Kind == "defines" && e.definesUsed != nil {
+			e.definesUsed[shortKey(key)+": "+en.Text] = true
 		}
 		t := post.b(post.formula(en.F))
 		if errs != "" {
@@ -975,6 +978,7 @@ func (e *Enc) run(fn *ssa.Function) {
 	e.usedNoContract = map[string]bool{}
 	e.usedInline = map[string]bool{}
 	e.absUsed = map[string]bool{}
+	e.definesUsed = map[string]bool{}
 	e.devirtUsed = map[string]bool{}
 	e.closureBinds = map[string][]Val{}
 	fr := e.newFrame(fn, nil)
@@ -1314,7 +1318,13 @@ func (e *Enc) callBySchema(fr *Frame, sch *Schema, args []Val, st *State, reach 
 			post.names["result0"] = res
 		}
 	}
-	for _, en := range sch.C.Ensures {
+	for _, en := range append(append([]*Clause{}, sch.C.Ensures...), sch.C.Defines...) {
+		if len(en.Tags) > 0 && !e.wantsTags(en.Tags) {
+			continue
+		}
+		if en.Kind == "defines" && e.definesUsed != nil {
+			e.definesUsed["schema "+sch.Name+": "+en.Text] = true
+		}
 		t := post.b(post.formula(en.F))
 		if errs != "" {
 			e.fatalf("%s:%d: binding error: %s in %q", en.File, en.Line, errs, en.Text)
